@@ -2,6 +2,7 @@ import Driver.Env
 import Driver.Match
 import Driver.Store
 import Driver.PathGuard
+import Driver.Sandbox
 open Sfw
 
 /-- a suite is a state machine over protocol lines -/
@@ -17,6 +18,7 @@ def dispatch (suite : String) : Option Suite :=
   | "env" => some (pureSuite Driver.envStep)
   | "match" => some (pureSuite Driver.matchStep)
   | "pathguard" => some (pureSuite Driver.pathGuardStep)
+  | "sandbox" => some (pureSuite Driver.sandboxStep)
   | "store" => some { σ := Sfw.Store.KV, init := Sfw.Store.init, step := Driver.storeStep }
   | _ => none
 
